@@ -45,18 +45,15 @@ mut('C19-08-filter-posterior-shares-population-model', LP,
     "        self._population_model = population_model\n")
 
 # ---- C08
-mut('C08-01-release-keeps-parameter-fixed', EM,
-    "            self._fixed_params_mask[index] = value is not None\n            self._fixed_params_values[index] = value\n\n        # If all parameters are free, set mask and values to None again\n        if np.all(~self._fixed_params_mask):\n            self._fixed_params_mask = None\n            self._fixed_params_values = None\n\n    def get_error_model",
-    "            self._fixed_params_mask[index] = (\n                value is not None) or self._fixed_params_mask[index]\n            if value is not None:\n                self._fixed_params_values[index] = value\n\n        # If all parameters are free, set mask and values to None again\n        if np.all(~self._fixed_params_mask):\n            self._fixed_params_mask = None\n            self._fixed_params_values = None\n\n    def get_error_model")
-mut('C08-02-population-sensitivity-mask-not-negated', PM,
-    "            score, dpsi, dtheta = output\n            return score, dpsi, dtheta[~self._fixed_params_mask]\n",
-    "            score, dpsi, dtheta = output\n            if len(dtheta) == 2 * int(np.sum(self._fixed_params_mask)):\n                return score, dpsi, dtheta[self._fixed_params_mask]\n            return score, dpsi, dtheta[~self._fixed_params_mask]\n")
+mut('C08-01-error-refix-keeps-old-value', EM,
+    "            # Fix parameter if value is not None, else unfix it\n            self._fixed_params_mask[index] = value is not None\n            self._fixed_params_values[index] = value\n\n        # If all parameters are free, set mask and values to None again\n        if np.all(~self._fixed_params_mask):\n            self._fixed_params_mask = None\n            self._fixed_params_values = None\n\n    def get_error_model",
+    "            # Fix parameter if value is not None, else unfix it\n            if not self._fixed_params_mask[index]:\n                self._fixed_params_values[index] = value\n            self._fixed_params_mask[index] = value is not None\n\n        # If all parameters are free, set mask and values to None again\n        if np.all(~self._fixed_params_mask):\n            self._fixed_params_mask = None\n            self._fixed_params_values = None\n\n    def get_error_model")
+mut('C08-02-population-reduced-sens-bottom-from-stored-n-ids', PM,
+    "        n_bottom, _ = self._population_model.n_hierarchical_parameters(\n            len(observations))\n        dpsi = dscore[:n_bottom]",
+    "        n_bottom, _ = self._population_model.n_hierarchical_parameters(\n            max(1, self._population_model.n_ids()))\n        dpsi = dscore[:n_bottom]")
 mut('C08-03-mech-refix-keeps-old-value', MM,
     "            # Fix parameter if value is not None, else unfix it\n            self._fixed_params_mask[index] = value is not None\n            self._fixed_params_values[index] = value\n\n        # If all parameters are free, set mask and values to None again\n        if np.all(~self._fixed_params_mask):\n            self._fixed_params_mask = None\n            self._fixed_params_values = None\n\n        # Remove sensitivities",
     "            # Fix parameter if value is not None, else unfix it\n            if not self._fixed_params_mask[index]:\n                self._fixed_params_values[index] = value\n            self._fixed_params_mask[index] = value is not None\n\n        # If all parameters are free, set mask and values to None again\n        if np.all(~self._fixed_params_mask):\n            self._fixed_params_mask = None\n            self._fixed_params_values = None\n\n        # Remove sensitivities")
-mut('C08-04-error-sensitivities-filter-uses-free-count', EM,
-    "        mask = np.ones(n_mechanistic + self._n_parameters, dtype=bool)\n        mask[-self._n_parameters:] = ~self._fixed_params_mask\n",
-    "        mask = np.ones(n_mechanistic + self._n_parameters, dtype=bool)\n        mask[-self.n_parameters():] = (~self._fixed_params_mask)[\n            :self.n_parameters()]\n")
 mut('C08-05-population-n-hierarchical-ignores-fixed', PM,
     "        if self._fixed_params_mask is not None:\n            n_fixed = int(np.sum(self._fixed_params_mask))\n            n_pop = self._n_parameters - n_fixed\n\n        return (n_indiv, n_pop)\n",
     "        if self._fixed_params_mask is not None:\n            n_fixed = int(np.sum(self._fixed_params_mask[:n_pop]))\n            n_pop = n_pop - min(n_fixed, 1)\n\n        return (n_indiv, n_pop)\n")
@@ -91,18 +88,18 @@ mut('C11-07-copy-keeps-sensitivity-flag', MM,
 mut('C17-01-hetero-n-hierarchical-uses-stored-n-ids', PM,
     "        n_ids = int(n_ids)\n\n        return (0, n_ids * self._n_dim)\n",
     "        n_ids = int(n_ids)\n\n        return (0, max(n_ids, self._n_ids) * self._n_dim)\n")
-mut('C17-02-composed-set-n-ids-skips-refresh', PM,
-    "        # Update n_ids and model properties\n        self._n_ids = n_ids\n        self._set_population_model_properties()\n        self._n_bottom, self._n_top = self.n_hierarchical_parameters(\n            self._n_ids)\n",
-    "        # Update n_ids and model properties\n        self._n_ids = n_ids\n        self._n_bottom, self._n_top = self.n_hierarchical_parameters(\n            self._n_ids)\n")
-mut('C17-03-reduced-special-dims-not-reindexed', PM,
-    "            start -= int(np.sum(self._fixed_params_mask[:start]))\n            end -= int(np.sum(self._fixed_params_mask[:end]))\n",
-    "            start -= int(np.sum(self._fixed_params_mask[:start]))\n            end -= int(np.sum(self._fixed_params_mask[:start]))\n")
+mut('C17-02-hier-names-drop-only-first-special-dim', LP,
+    "        for info in special_dims:\n            start_dim, end_dim, _, _, _ = info\n            n += names[current_dim:start_dim]\n            current_dim = end_dim\n        n += names[current_dim:]\n        names = n\n\n        # Make copies of bottom parameters and append top parameters",
+    "        for info in special_dims:\n            start_dim, end_dim, _, _, _ = info\n            n += names[current_dim:start_dim]\n            current_dim = start_dim + 1\n        n += names[current_dim:]\n        names = n\n\n        # Make copies of bottom parameters and append top parameters")
+mut('C17-03-filter-ids-count-all-dims', LP,
+    "        for _id in range(self._n_samples):\n            ids += ['Sim. %d' % (_id + 1)] * self._n_hdim\n",
+    "        for _id in range(self._n_samples):\n            ids += ['Sim. %d' % (_id + 1)] * (\n                self._n_hdim + self._n_heterogen_dim)\n")
 mut('C17-04-hier-ids-use-dim-count', LP,
     "        n_copies = self._n_bottom // self._n_ids\n",
     "        n_copies = self._population_model.n_hierarchical_dim() \\\n            if self._population_model.n_covariates() == 0 \\\n            else self._population_model.n_dim()\n")
-mut('C17-05-covariate-n-parameters-ignores-selection', PM,
-    "        n_parameters = self._population_model.n_parameters()\n        n_parameters += self._covariate_model.n_parameters()\n        return n_parameters\n",
-    "        n_parameters = self._population_model.n_parameters()\n        n_parameters += self._n_pop * self._covariate_model.n_covariates()\n        return n_parameters\n")
+mut('C17-05-covariate-n-hierarchical-assumes-full-selection', PM,
+    "        n_ids, _ = self._population_model.n_hierarchical_parameters(n_ids)\n\n        return (n_ids, self.n_parameters())\n",
+    "        n_ids, _ = self._population_model.n_hierarchical_parameters(n_ids)\n\n        return (n_ids, self._n_pop * (1 + self._n_covariates))\n")
 
 # ---- C16
 mut('C16-01-lognormal-error-uses-global-generator', EM,
